@@ -101,6 +101,11 @@ func (hc *histClient) hello2(kind string, a int, useReal bool) (rec []byte, real
 			inner.Exts = append(inner.Exts, echbox.ALPNExt([]string{"added"}))
 		}
 	}
+	if kind == "hello2-outersni" {
+		if i := outer.Find(echbox.ExtSNI); i >= 0 {
+			outer.Exts[i] = echbox.SNIExt("elsewhere.example")
+		}
+	}
 	encoded := echbox.EncodeInner(inner, from, to, p.Pad)
 	var s *echbox.Sealer
 	real = useReal
@@ -126,6 +131,13 @@ func (hc *histClient) hello2(kind string, a int, useReal bool) (rec []byte, real
 			return
 		}
 		seq = -1
+	}
+	if kind == "hello2-suite-pre" {
+		// the second hello names another AEAD (consistently: the AAD covers it)
+		// while the payload continues the first hello's HPKE context
+		relabel := *s
+		relabel.Suite.AEAD = uint16(1 + int(s.Suite.AEAD)%3)
+		s = &relabel
 	}
 	o2, err := s.SealInto(outer, echIdx, encoded, false)
 	if err != nil {
@@ -197,6 +209,8 @@ var hello2Alerts = map[string][]int{
 	"hello2-alpn":      {alIllegalParameter},
 	"hello2-innertype": {alIllegalParameter, alMissingExtension},
 	"hello2-nover":     {alIllegalParameter, alDecryptError, alMissingExtension},
+	"hello2-outersni":  {alIllegalParameter},
+	"hello2-suite-pre": {alIllegalParameter},
 }
 
 // histIO is how the history's records reach the Conn: sequentially over a
@@ -225,7 +239,7 @@ func seqIO(b *built) *histIO {
 	}
 	return &histIO{pk: pk,
 		start: func() (first []byte, accepted bool, err error) {
-			guard(func() { conn, err = ech.NewConn(context.Background(), sc, ech.WithKeys(b.keys)) })
+			guard(func() { conn, err = ech.NewConn(context.Background(), sc, keyOptions(b.keys)...) })
 			if *pk != "" || err != nil {
 				return nil, false, err
 			}
@@ -282,7 +296,7 @@ func concIO(w *simnet.World, b *built) *histIO {
 	return &histIO{pk: pk,
 		start: func() (first []byte, accepted bool, err error) {
 			cc.Write(b.outerRec)
-			if p, m, s := core.Guard(func() { conn, err = ech.NewConn(context.Background(), fc, ech.WithKeys(b.keys)) }); p {
+			if p, m, s := core.Guard(func() { conn, err = ech.NewConn(context.Background(), fc, keyOptions(b.keys)...) }); p {
 				*pk = s + ": " + normMsg(m)
 			}
 			if *pk != "" || err != nil {
@@ -482,7 +496,7 @@ func runHistory(prop string, seed uint64, p *HistoryPlan, b *built, io_ *histIO,
 			if processed {
 				retried, rInspect = true, false
 				res.Probe("retry_processed")
-				if al, bad := hello2Alerts[st.Kind]; bad && !((st.Kind == "hello2-sni" || st.Kind == "hello2-alpn") && (!real || seq != recvSeq)) {
+				if al, bad := hello2Alerts[st.Kind]; bad && !((st.Kind == "hello2-sni" || st.Kind == "hello2-alpn" || st.Kind == "hello2-outersni") && (!real || seq != recvSeq)) {
 					// (a changed inner name / ALPN can only be noticed once the payload opened)
 					expectAbort = al
 				} else if !real || seq != recvSeq {
@@ -554,7 +568,7 @@ func runHistory(prop string, seed uint64, p *HistoryPlan, b *built, io_ *histIO,
 	res.Sample = map[string]any{"kind": "history", "concurrent": p.Concurrent, "steps": p.Steps}
 }
 
-var cKinds = []string{"hello2-ok", "hello2-ok", "hello2-ok", "hello2-noech", "hello2-id", "hello2-suite", "hello2-enc", "hello2-fresh", "hello2-seq", "hello2-sni", "hello2-alpn", "hello2-innertype", "hello2-nover", "ccs", "ccs", "hs-other", "alert", "appdata"}
+var cKinds = []string{"hello2-ok", "hello2-ok", "hello2-ok", "hello2-noech", "hello2-id", "hello2-suite", "hello2-enc", "hello2-fresh", "hello2-seq", "hello2-sni", "hello2-alpn", "hello2-innertype", "hello2-nover", "hello2-outersni", "hello2-suite-pre", "ccs", "ccs", "hs-other", "alert", "appdata"}
 var bKinds = []string{"hrr", "hrr", "sh", "ccs", "appdata", "hs-other"}
 
 func genC06(seed uint64, idx int) *Plan {
